@@ -218,10 +218,16 @@ pub fn render_value(v: &ValueType) -> String {
                 })
                 .collect();
             items.sort();
-            let mut origins: Vec<String> = l.origins.borrow().iter().map(|d| d.get_name().to_string()).collect();
-            origins.sort();
-            origins.dedup();
-            format!("l:[{}]@[{}]", items.join(","), origins.join(","))
+            // `origins` is a cache recomputed whenever the list is used by the story; only an
+            // empty list's remembered origin names are state (they are what a save carries)
+            if items.is_empty() {
+                let mut origins: Vec<String> = l.get_origin_names();
+                origins.sort();
+                origins.dedup();
+                format!("l:[]@[{}]", origins.join(","))
+            } else {
+                format!("l:[{}]", items.join(","))
+            }
         }
         ValueType::DivertTarget(p) => format!("d:{p}"),
         ValueType::VariablePointer(_) => "ptr".to_string(),
@@ -362,6 +368,14 @@ impl Res {
             Res::Err(k, m) => format!("err {k} {m}"),
             Res::Panic(s, _) => format!("panic {s}"),
             Res::Fuel => "fuel".into(),
+        }
+    }
+    /// Like `class`, but an error is identified by its kind only (messages may
+    /// embed counts of earlier, unrelated messages).
+    pub fn class_kind(&self) -> String {
+        match self {
+            Res::Err(k, _) => format!("err {k}"),
+            other => other.class(),
         }
     }
     pub fn is_err(&self) -> bool {
